@@ -46,6 +46,8 @@ func main() {
 		os.Exit(cmdCheck(os.Args[2:]))
 	case "func":
 		os.Exit(cmdFunc(os.Args[2:]))
+	case "replay":
+		os.Exit(cmdReplay(os.Args[2:]))
 	case "list":
 		os.Exit(cmdList(os.Args[2:]))
 	default:
